@@ -619,6 +619,15 @@ class AsyncFIXConnection:
         # Remember next_num_out
         current_next_num_out = self._session.next_num_out
 
+        if not 0 < begin_seq_no < current_next_num_out or end_seq_no < begin_seq_no:
+            self.log.warning(
+                f"ResendRequest for {begin_seq_no}..{end_seq_no} ignored, nothing of it"
+                f" was ever sent (next_num_out={current_next_num_out})"
+            )
+            if self._connection_state != ConnectionState.RESENDREQ_AWAITING:
+                await self._state_set(ConnectionState.ACTIVE)
+            return
+
         gap_fill_begin = int(begin_seq_no)
         gap_fill_end = int(begin_seq_no)
 
